@@ -18,7 +18,8 @@ REQUIRED_THEOREMS = ['Properties.C10.cache_transparent_partial', 'Properties.C10
                      'Properties.C10.invariant_step', 'Properties.C10.second_backward_counterexample',
                      'Properties.C10.noRepeatedBackward_tight', 'Properties.C10.update_in_eval_counterexample',
                      'Properties.C10.load_cast_repaired', 'Properties.C10.training_cache_empty',
-                     'Properties.C10.cache_off_is_uncached', 'Properties.C10.trace_outputs']
+                     'Properties.C10.cache_off_is_uncached', 'Properties.C10.trace_outputs',
+                     'Properties.C10.lu_cached_paths_agree', 'Properties.C10.qr_cached_paths_agree', 'Properties.C10.svd_cached_paths_agree', 'Properties.C10.conv_cached_forward_agrees', 'Properties.C10.naive_combined_routine_agrees', 'Properties.C10.current_version_denotes_current_value']
 RULE = ("histories over {train, eval, use_cache:1/0/bad, fwd, inv, update, load, cast:f64, cast:f32, fwdBwd} on 7 configurations of "
         "the 5 classes: (A) exhaustive: every history of length <= 2 from a fresh module and [eval, use_cache:1] followed by every "
         "sequence of length <= 3 (thorough: <= 4), updates only in training mode (the property's alphabet); (B) sampled length 4-5 "
